@@ -5,7 +5,9 @@ C12, continued — more link shapes over the generic chain theorems of `Theorems
     a depth failure is a Runtime failure, which `coalesce` does not absorb (only Binding / Attribute);
   * `fstrArg` — `int(f'{NEXT}')` (argument block of `int`, argument block of the segment's `string(..)`
     call, the program): 3 levels per reference, so 10 references evaluate and 11 fail.  The chain's value
-    is 0 at every length (`string(0) = "0"`, `int("0") = 0`).
+    is 0 at every length (`string(0) = "0"`, `int("0") = 0`);
+  * `hasArg` — `has(NEXT) ? 1 : 0` (argument block of `has`, then the ternary's jumps): 2 levels per
+    reference; the value is 1 from the first reference on; `has` does not turn the depth failure into `false`.
 -/
 namespace Rscel
 namespace C12Blocks
@@ -307,6 +309,152 @@ theorem fstr_concrete_std (now : Int) (k : Nat) :
       a.kind = .runtime) :=
   ⟨fstr_chain_ok (stdBuiltins_fmtZero now) _ _ k (fstrEnv_isChain (std_string_func now) (std_int_func now) k),
    fstr_chain_too_deep (stdBuiltins_fmtZero now) _ _ k (fstrEnv_isChain (std_string_func now) (std_int_func now) k)⟩
+
+/-! ### (5) argument of `has`: `has(NEXT) ? 1 : 0` -/
+
+
+/-- What the compiler emits for `has(NEXT) ? 1 : 0`. -/
+def hasLink (nxt : Str) : List Instr :=
+  [.push (.code (refBlock nxt)), .push (.ident "has".toList), .call 1, .test, .dup, .jmpCond false 3, .pop,
+   .push (.int 1), .jmp 5, .dup, .not, .jmpCond false 2, .pop, .push (.int 0)]
+
+theorem callMacro_has_ok (rec recTop : Rec) (env : Env) (c : List Instr) (log log' : Log) (v : Val)
+    (hr : rec env c true log = { res := .ok v, log := log' }) :
+    callMacro rec recTop env "has".toList .null [c] log = (.bool true, log') := by
+  simp only [callMacro, if_true, hr]
+
+theorem callMacro_has_err (rec recTop : Rec) (env : Env) (c : List Instr) (log log' : Log) (a : Abort)
+    (hka : a.kind = .runtime)
+    (hr : rec env c true log = { res := .error a, log := log' }) :
+    callMacro rec recTop env "has".toList .null [c] log = (.err .runtime, log') := by
+  simp only [callMacro, if_true, hr]
+  cases a with
+  | err k => simp only [Abort.kind] at hka; subst hka; rfl
+  | _ => rfl
+
+theorem has_isMacro (env : Env) (hb : env.hasBinds = true) (hcm : env.compileMode = false) :
+    env.isMacro "has".toList = true := by
+  simp only [Env.isMacro, defaultMacros, hb, hcm]; decide
+
+theorem has_lvl_ok (b : Nat) (env : Env) (nxt : Str) (log log' : Log) (v : Val)
+    (hb : env.hasBinds = true) (hcm : env.compileMode = false) (hf : env.getFunc B "has".toList = none)
+    (hr : runAt B b env (refBlock nxt) true log = { res := .ok v, log := log' }) :
+    runAt B (b + 1) env (hasLink nxt) true log = { res := .ok (.int 1), log := log' } := by
+  rw [nested_runs_at_smaller_budget]
+  simp only [hasLink, blockFuel, List.length_cons, List.length_nil, Nat.reduceAdd, Nat.reduceMul]
+  rw [loop_at (i := .push (.code (refBlock nxt))) (hf := by omega) (h := rfl)]
+  simp only [step, pushV, Nat.reduceAdd, Nat.reduceSub]
+  rw [loop_at (i := .push (.ident "has".toList)) (hf := by omega) (h := rfl)]
+  simp only [step, pushV, Nat.reduceAdd, Nat.reduceSub]
+  rw [loop_at (i := .call 1) (hf := by omega) (h := rfl)]
+  rw [step_call_macro1 (hf := hf) (hm := has_isMacro env hb hcm), callMacro_has_ok _ _ _ _ _ _ _ hr]
+  simp only [Nat.reduceAdd, Nat.reduceSub]
+  rw [loop_at (i := .test) (hf := by omega) (h := rfl)]
+  simp only [step, liftNext, unop, popV, popS, pushV, vTest, truthy, Nat.reduceAdd, Nat.reduceSub]
+  rw [loop_at (i := .dup) (hf := by omega) (h := rfl)]
+  simp only [step, popV, popS, pushV, Nat.reduceAdd, Nat.reduceSub]
+  rw [loop_at (i := .jmpCond false 3) (hf := by omega) (h := rfl)]
+  simp only [step, popV, popS, Nat.reduceAdd, Nat.reduceSub]
+  simp only [show (true == false) = false from rfl, Bool.false_eq_true, if_false]
+  rw [loop_at (i := .pop) (hf := by omega) (h := rfl)]
+  simp only [step, liftNext, popV, popS, Nat.reduceAdd, Nat.reduceSub]
+  rw [loop_at (i := .push (.int 1)) (hf := by omega) (h := rfl)]
+  simp only [step, pushV, Nat.reduceAdd, Nat.reduceSub]
+  rw [loop_at (i := .jmp 5) (hf := by omega) (h := rfl)]
+  simp only [step, List.length_cons, List.length_nil, Nat.reduceAdd, Nat.reduceSub]
+  rw [show jumpTarget 9 5 14 = some 14 from by decide]
+  simp only []
+  rw [loop_end (h := by simp)]
+  simp [finish, popS]
+
+theorem has_lvl_err (b : Nat) (env : Env) (nxt : Str) (log log' : Log) (a : Abort)
+    (hb : env.hasBinds = true) (hcm : env.compileMode = false) (hf : env.getFunc B "has".toList = none)
+    (hka : a.kind = .runtime)
+    (hr : runAt B b env (refBlock nxt) true log = { res := .error a, log := log' }) :
+    runAt B (b + 1) env (hasLink nxt) true log = { res := .error (.err .runtime), log := log' } := by
+  rw [nested_runs_at_smaller_budget]
+  simp only [hasLink, blockFuel, List.length_cons, List.length_nil, Nat.reduceAdd, Nat.reduceMul]
+  rw [loop_at (i := .push (.code (refBlock nxt))) (hf := by omega) (h := rfl)]
+  simp only [step, pushV, Nat.reduceAdd, Nat.reduceSub]
+  rw [loop_at (i := .push (.ident "has".toList)) (hf := by omega) (h := rfl)]
+  simp only [step, pushV, Nat.reduceAdd, Nat.reduceSub]
+  rw [loop_at (i := .call 1) (hf := by omega) (h := rfl)]
+  rw [step_call_macro1 (hf := hf) (hm := has_isMacro env hb hcm), callMacro_has_err _ _ _ _ _ _ _ hka hr]
+  simp only [Nat.reduceAdd, Nat.reduceSub]
+  rw [loop_at (i := .test) (hf := by omega) (h := rfl)]
+  simp only [step, liftNext, unop, popV, popS, pushV, vTest, Nat.reduceAdd, Nat.reduceSub]
+  rw [loop_at (i := .dup) (hf := by omega) (h := rfl)]
+  simp only [step, popV, popS, pushV, Nat.reduceAdd, Nat.reduceSub]
+  rw [loop_at (i := .jmpCond false 3) (hf := by omega) (h := rfl)]
+  simp only [step, popV, popS, List.length_cons, List.length_nil, Nat.reduceAdd, Nat.reduceSub]
+  rw [show jumpTarget 6 3 14 = some 9 from by decide]
+  simp only [show (false == false) = true from rfl, if_true]
+  rw [loop_at (i := .dup) (hf := by omega) (h := rfl)]
+  simp only [step, popV, popS, pushV, Nat.reduceAdd, Nat.reduceSub]
+  rw [loop_at (i := .not) (hf := by omega) (h := rfl)]
+  simp only [step, liftNext, unop, popV, popS, pushV, vNot, Nat.reduceAdd, Nat.reduceSub]
+  rw [loop_at (i := .jmpCond false 2) (hf := by omega) (h := rfl)]
+  simp only [step, popV, popS, List.length_cons, List.length_nil, Nat.reduceAdd, Nat.reduceSub]
+  rw [show jumpTarget 12 2 14 = some 14 from by decide]
+  simp only [show (false == false) = true from rfl, if_true]
+  rw [loop_end (h := by simp)]
+  simp [finish, popS]
+
+
+def hasArg (B : Builtins) : Shape where
+  code := hasLink
+  cost := 2
+  inner := fun env => env
+  good := fun env => env.hasBinds = true ∧ env.compileMode = false ∧ env.getFunc B "has".toList = none
+  okName := fun _ => True
+  val := fun d => if d = 0 then 0 else 1
+
+/-- **The accounting of a `has` argument**: two levels per reference; the depth failure passes. -/
+theorem hasArg_sound : (hasArg B).Sound B :=
+  Shape.sound_of_block (hasArg B) rfl rfl (fun _ h => h) (fun _ _ => rfl) (fun _ _ _ => rfl) (fun _ _ => rfl)
+    (fun b env nxt log log' d hg _ _ hr => by
+      have := has_lvl_ok b env nxt log log' _ hg.1 hg.2.1 hg.2.2 hr
+      simpa [hasArg] using this)
+    (fun b env nxt log log' a hg _ hka hr =>
+      ⟨.err .runtime, has_lvl_err b env nxt log log' a hg.1 hg.2.1 hg.2.2 hka hr, rfl⟩)
+
+/-- **`has`-argument chains up to 15 references evaluate** (to 1 as soon as there is a reference). -/
+theorem has_chain_ok (env : Env) (names : Nat → Str) (k : Nat)
+    (hc : IsBlockChain (hasArg B) env names k) (hk : k ≤ 15) :
+    execProg B env (blockChainCode (hasArg B) names k 0) =
+      { res := .ok (.int (if k = 0 then 0 else 1)), log := [] } :=
+  block_chain_ok (hasArg B) hasArg_sound env names k hc (by show k * 2 < 32; omega)
+
+/-- **From 16 references on the chain ends in a Runtime failure** — `has` does not answer `false`. -/
+theorem has_chain_too_deep (env : Env) (names : Nat → Str) (k : Nat)
+    (hc : IsBlockChain (hasArg B) env names k) (hk : 16 ≤ k) :
+    ∃ a, execProg B env (blockChainCode (hasArg B) names k 0) = { res := .error a, log := [] } ∧
+      a.kind = .runtime :=
+  block_chain_too_deep (hasArg B) hasArg_sound env names k hc (by show 32 ≤ k * 2; omega)
+
+theorem std_has_func (now : Int) : (stdBuiltins now).func "has".toList = none := rfl
+
+theorem hasEnv_isChain (hB : B.func "has".toList = none) (k : Nat) :
+    IsBlockChain (hasArg B) (blockChainEnv (hasArg B) k) qname k :=
+  blockChainEnv_isChain _ k ⟨rfl, rfl, getFunc_blockChainEnv _ k _ hB⟩ (fun _ => trivial)
+
+/-- The concrete statement for every `k` (context `q := has(qq) ? 1 : 0, …`). -/
+theorem has_concrete (hB : B.func "has".toList = none) (k : Nat) :
+    (k ≤ 15 → execProg B (blockChainEnv (hasArg B) k) (blockChainCode (hasArg B) qname k 0) =
+      { res := .ok (.int (if k = 0 then 0 else 1)), log := [] }) ∧
+    (16 ≤ k → ∃ a, execProg B (blockChainEnv (hasArg B) k) (blockChainCode (hasArg B) qname k 0) =
+      { res := .error a, log := [] } ∧ a.kind = .runtime) :=
+  ⟨has_chain_ok _ _ k (hasEnv_isChain hB k), has_chain_too_deep _ _ k (hasEnv_isChain hB k)⟩
+
+/-! ### non-vacuity: the hypotheses of the chain theorems hold in the concrete contexts -/
+
+example : IsBlockChain (coalesceArg (stdBuiltins 0)) (blockChainEnv (coalesceArg (stdBuiltins 0)) 15) qname 15 :=
+  coalesceEnv_isChain (std_coalesce_func 0) 15
+example : IsBlockChain (hasArg (stdBuiltins 0)) (blockChainEnv (hasArg (stdBuiltins 0)) 16) qname 16 :=
+  hasEnv_isChain (std_has_func 0) 16
+example : IsBlockChain (fstrArg (stdBuiltins 0)) (blockChainEnv (fstrArg (stdBuiltins 0)) 11) qname 11 :=
+  fstrEnv_isChain (std_string_func 0) (std_int_func 0) 11
+example : FmtZero (stdBuiltins 0) := stdBuiltins_fmtZero 0
 
 end C12Blocks
 end Rscel
